@@ -14,6 +14,7 @@ from .refwalks import WalkRef, TooLarge
 from .twins import clone, compare, max_live_size, num_equal, near_tie_at_pruning_boundary, tie_upstream
 from .world_a import run_session, InjectedFault
 
+TIER = "quick"       # set by the worker / driver before scenarios are generated
 ALL_FAULTS = ("relist", "dup", "clock", "abort", "restart", "shuffle")
 TWIN_FAULTS = ("dup", "clock")          # faults that twin sessions may share (consistent answers)
 
@@ -34,6 +35,10 @@ def base_doc(rng, profile, latlon_p=0.0, sqlite_p=0.15, pickle_p=0.06, fault_kin
     if backend.startswith("sqlite"):
         world_kw.setdefault("labels", rng.choice(["int", "bigint"]))
         cfg_kw.setdefault("only_edges", True if rng.random() < 0.8 else None)
+    if TIER == "thorough" and "n" not in world_kw and rng.random() < 0.3:
+        # the thorough tier also visits larger worlds and longer traces
+        world_kw["n"] = rng.randint(8, 12)
+        trace_kw.setdefault("nobs", rng.randint(4, 10))
     unit = 20.0 if latlon else world_kw.pop("unit", 1.0)
     offset = (0.0, 0.0)
     if not latlon and rng.random() < big_p:
@@ -131,10 +136,38 @@ def result(vs, doc, sess, ctx=None, extra_sig="", stats=None):
     st = session_stats(sess, ctx)
     if doc.get("faults", {}).get("relist"):
         st["fired_relist"] = 1
+    if doc.get("log") == "DEBUG" and sess.log_records:
+        st["fired_debuglog"] = 1
+        st["debug_log_records"] = sess.log_records
     if stats:
         for k, v in stats.items():
             st[k] = st.get(k, 0) + v
-    return {"violations": vs, "sig": session_sig(doc, sess, extra_sig), "nontrivial": nontrivial(sess), "stats": st}
+    return {"violations": vs, "sig": session_sig(doc, sess, extra_sig), "nontrivial": nontrivial(sess), "stats": st,
+            "shape": lattice_shape(sess)}
+
+
+def lattice_shape(sess):
+    """Digest of the final lattice shape: per column and layer (entries, live, postponed)."""
+    import zlib
+    m = sess.matcher
+    if m is None or not m.lattice:
+        return 0
+    E = m.expand_now
+    shp = []
+    for ci in sorted(m.lattice):
+        col = m.lattice[ci]
+        shp.append(tuple((len(l), sum(1 for e in l.values() if not e.stop),
+                          sum(1 for e in l.values() if not e.stop and e.delayed > E)) for l in col.o))
+    return zlib.crc32(repr((E, shp)).encode())
+
+
+def with_debug_log(rng, d, p=0.15):
+    """Environment: the package logger at DEBUG with a capturing handler (stopped candidates are then
+    materialised in the lattice).  Invariants must hold at any log level."""
+    if rng.random() < p:
+        d["log"] = "DEBUG"
+        d["faults"]["debuglog"] = True
+    return d
 
 
 def eval_invariants(doc, checks, skip_jumped=False):
@@ -156,7 +189,7 @@ def eval_invariants(doc, checks, skip_jumped=False):
 def gen_C02(rng, tier):
     d = base_doc(rng, rng.choice(["single", "extend", "widen", "history", "history"]), latlon_p=0.12,
                  world_kw={"linked_p": 0.15}, trace_kw={})
-    return d
+    return with_debug_log(rng, d)
 
 
 def eval_C02(doc):
@@ -164,8 +197,8 @@ def eval_C02(doc):
 
 
 def gen_C03(rng, tier):
-    return base_doc(rng, rng.choice(["single", "single", "extend", "widen", "history"]), latlon_p=0.05,
-                    world_kw={"linked_p": 0.1})
+    return with_debug_log(rng, base_doc(rng, rng.choice(["single", "single", "extend", "widen", "history"]), latlon_p=0.05,
+                                        world_kw={"linked_p": 0.1}))
 
 
 def eval_C03(doc):
@@ -173,9 +206,9 @@ def eval_C03(doc):
 
 
 def gen_C04(rng, tier):
-    return base_doc(rng, rng.choice(["single", "extend", "widen", "history", "history"]), latlon_p=0.05,
-                    world_kw={"linked_p": 0.3, "directed_p": rng.choice([0.1, 0.4, 0.8]), "selfnbr_p": 0.2},
-                    cfg_kw={"ne": True if rng.random() < 0.75 else None})
+    return with_debug_log(rng, base_doc(rng, rng.choice(["single", "extend", "widen", "history", "history"]), latlon_p=0.05,
+                                        world_kw={"linked_p": 0.3, "directed_p": rng.choice([0.1, 0.4, 0.8]), "selfnbr_p": 0.2},
+                                        cfg_kw={"ne": True if rng.random() < 0.75 else None}))
 
 
 def eval_C04(doc):
@@ -183,8 +216,8 @@ def eval_C04(doc):
 
 
 def gen_C05(rng, tier):
-    return base_doc(rng, rng.choice(["single", "single", "extend", "widen", "history"]), latlon_p=0.35,
-                    world_kw={"linked_p": 0.05})
+    return with_debug_log(rng, base_doc(rng, rng.choice(["single", "single", "extend", "widen", "history"]), latlon_p=0.35,
+                                        world_kw={"linked_p": 0.05}))
 
 
 def eval_C05(doc):
@@ -201,7 +234,7 @@ def gen_C09(rng, tier):
     if jumpy:
         unit = d["world"].get("unit", 1.0)
         d["cfg"].setdefault("max_dist", 2.5 * unit)
-    return d
+    return with_debug_log(rng, d, 0.25)
 
 
 def eval_C09(doc):
@@ -214,11 +247,21 @@ def gen_C01(rng, tier):
     cfg_kw = {"ne": False, "width": False, "second_order": False,
               "family": "distance" if fam == "distance" else "simple",
               "only_edges": fam != "simple_ne"}
+    big = TIER == "thorough" and rng.random() < 0.3
     d = base_doc(rng, "single", latlon_p=0.0, sqlite_p=0.12 if fam != "simple_ne" else 0.0,
-                 cfg_kw=cfg_kw, world_kw={"n": rng.randint(2, 7), "linked_p": 0.1},
-                 trace_kw={"nobs": rng.choice([1, 2, 3, 3, 4, 4, 5, 6])},
+                 cfg_kw=cfg_kw, world_kw={"n": rng.randint(2, 7) if not big else rng.randint(7, 10), "linked_p": 0.1},
+                 trace_kw={"nobs": rng.choice([1, 2, 3, 3, 4, 4, 5, 6]) if not big else rng.randint(5, 9)},
                  fault_kinds=("relist", "dup", "clock", "abort", "restart"))
     d["cfg"].pop("max_lattice_width", None)
+    if rng.random() < 0.3:
+        # the matcher object has been used for another trace before (each match is judged on its own)
+        w_plan = d["world"]
+        d["trace2"] = gen.gen_trace(rng, w_plan, nobs=rng.randint(1, 6))
+        d["ops"] = [{"op": "match", "k": len(d["trace2"]), "unique": False, "alt": True}] + d["ops"]
+        for a in d["faults"].get("aborts", []):
+            a["op"] = rng.randrange(len(d["ops"]))
+        if "restart_before" in d["faults"]:
+            d["faults"]["restart_before"] = [1]
     return d
 
 
@@ -312,9 +355,15 @@ def eval_C01(doc):
 
 # ----------------------------------------------------------------------------- C06
 def gen_C06(rng, tier):
-    d = base_doc(rng, "single", latlon_p=0.05, cfg_kw={"ne": True, "width": False, "second_order": False},
-                 fault_kinds=("relist", "dup", "clock"))
+    cfg_kw = {"ne": True, "width": False, "second_order": False}
+    if rng.random() < 0.45:
+        cfg_kw.update({"family": "simple", "only_edges": False})     # node-and-edge states
+    d = base_doc(rng, "single", latlon_p=0.05, cfg_kw=cfg_kw, fault_kinds=("relist", "dup", "clock"),
+                 world_kw={"linked_p": 0.1})
     d["cfg"].pop("max_lattice_width", None)
+    if rng.random() < 0.35:
+        # a sharper noise model for non-emitting states makes detours through them attractive
+        d["cfg"]["obs_noise_ne"] = d["cfg"]["obs_noise"] * rng.choice([0.15, 0.3, 0.5])
     return d
 
 
@@ -473,7 +522,12 @@ def eval_C08(doc):
 def gen_C10(rng, tier):
     mode = rng.choice(["relist", "relist", "rematch"])
     prof = "single" if mode == "relist" else rng.choice(["history", "widen", "extend"])
-    d = base_doc(rng, prof, latlon_p=0.05, cfg_kw={"second_order": rng.random() < 0.25},
+    cfg_kw = {"second_order": rng.random() < 0.25}
+    if mode == "relist" and rng.random() < 0.4:
+        # the listing order decides which of several candidates for a state arrives first: most visible
+        # where an entry carries more than its probability (distance family with non-emitting states)
+        cfg_kw.update({"family": "distance", "ne": True})
+    d = base_doc(rng, prof, latlon_p=0.05, cfg_kw=cfg_kw,
                  world_kw={"linked_p": 0.1}, fault_kinds=("dup", "clock") if mode == "relist" else ("dup", "clock", "abort"))
     d["mode"] = mode
     d["salt"] = rng.randrange(1 << 30)
@@ -576,8 +630,15 @@ def gen_C16(rng, tier):
     if tr == "translate":
         cfg_kw["width"] = False
     prof = rng.choice(["single", "single", "extend", "widen"]) if tr != "translate" else rng.choice(["single", "extend"])
-    d = base_doc(rng, prof, latlon_p=0.0, sqlite_p=0.0, pickle_p=0.0, big_p=0.0, cfg_kw=cfg_kw,
-                 world_kw={"linked_p": 0.1}, fault_kinds=("dup", "clock"))
+    stored = rng.random() < 0.15      # the planar map is a stored one (SQLite file / pickle), reopened mid-session
+    d = base_doc(rng, prof, latlon_p=0.0, sqlite_p=0.7 if stored else 0.0, pickle_p=0.3 if stored else 0.0, big_p=0.0,
+                 cfg_kw=cfg_kw, world_kw={"linked_p": 0.1}, fault_kinds=("dup", "clock"))
+    if stored and d["backend"] in ("sqlite", "sqlite_bulk", "pickle"):
+        if len(d["ops"]) == 1:
+            first = dict(d["ops"][0])
+            first["k"] = max(1, first["k"] // 2)
+            d["ops"] = [first, {"op": "match", "k": d["ops"][0]["k"], "unique": d["ops"][0].get("unique", False)}]
+        d["faults"]["restart_before"] = [1]
     if tr == "translate":
         d["cfg"].pop("max_lattice_width", None)
         d["ops"] = [op for op in d["ops"] if op["op"] != "widen"]
